@@ -6,8 +6,8 @@ mkdir -p evidence replays corpus coq/Cases coq/Generated /var/tmp/verif-numba-ca
 export PYTHONPATH=/repo PYTHONHASHSEED=0 OPENDSM_EEMETER_VERIF=1 PYTHONWARNINGS=ignore
 # regenerate translator output so that Generated/*.v exists before the full build
 if [ -f harness/translate_all.py ]; then /venv/bin/python -W ignore harness/translate_all.py; fi
+/venv/bin/python -c "import sys; sys.path.insert(0,'harness'); import vlib; vlib.ensure_makefile()"
 cd coq
-coq_makefile -f _CoqProject -o Makefile > /dev/null
 timeout 3600 make -j16 2>&1 | grep -v "^Closed under\|^COQC\|^COQDEP" || true
 cd ..
 /venv/bin/python - <<'PY'
